@@ -25,6 +25,7 @@ import (
 	"github.com/comdex-official/comdex/x/liquidity"
 	"github.com/comdex-official/comdex/x/liquidity/amm"
 	liqkeeper "github.com/comdex-official/comdex/x/liquidity/keeper"
+	v1liquidity "github.com/comdex-official/comdex/x/liquidity/legacy/v1"
 	liqtypes "github.com/comdex-official/comdex/x/liquidity/types"
 )
 
@@ -115,6 +116,9 @@ type c04Env struct {
 	feeRate map[uint64]sdkmath.LegacyDec
 	okCnt   int
 	msgCnt  int
+	migWait int64 // see nextBlock
+	migAt   int64 // height at whose start (after the previous EndBlocker, before the BeginBlocker — where x/upgrade runs module migrations) the store migration 1 -> 2 is run; 0 = never
+	v1      bool // version-1 world: no market-making orders, no ranged pools (the store can be re-encoded in the v1 layout)
 	tiny    bool // tiny-price markets (prices around 10^-4 .. 10^-3): many truncations to zero in the matching engine
 }
 
@@ -644,6 +648,124 @@ func (e *c04Env) endBlocker() {
 }
 
 // ---------------------------------------------------------------------------------------------------------
+// store migration 1 -> 2
+// ---------------------------------------------------------------------------------------------------------
+
+// migrate re-encodes the liquidity store in the consensus-version-1 layout (generic params, pools, orders as legacy/v1
+// protobufs: the state a chain has right before the upgrade) and runs the REAL registered migration
+// keeper.Migrator.Migrate1to2 (module.go: cfg.RegisterMigration(types.ModuleName, 1, m.Migrate1to2)).  Only possible
+// when the state is representable in the v1 layout: no market-making orders / indexes, no ranged pools.
+func (e *c04Env) migrate() bool {
+	p := e.prev
+	for _, o := range p.orders {
+		if o.typ == int(liqtypes.OrderTypeMM) {
+			e.tr.Count("migrate:skipped_mm_orders")
+			return false
+		}
+	}
+	if len(p.mms) > 0 {
+		e.tr.Count("migrate:skipped_mm_index")
+		return false
+	}
+	for _, pl := range p.pools {
+		if pl.ranged {
+			e.tr.Count("migrate:skipped_ranged_pool")
+			return false
+		}
+	}
+	store := e.ctx.KVStore(e.app.GetKey(liqtypes.StoreKey))
+	cdc := e.app.AppCodec()
+	before := map[uint64]liqtypes.GenericParams{}
+	nPartial, nLive, nOrders := 0, 0, 0
+	for _, a := range e.apps {
+		params, err := e.k.GetGenericParams(e.ctx, a)
+		if err != nil {
+			e.t.Fatal(err)
+		}
+		before[a] = params
+		oldParams := v1liquidity.GenericParams{
+			BatchSize: params.BatchSize, TickPrecision: params.TickPrecision, FeeCollectorAddress: params.FeeCollectorAddress,
+			DustCollectorAddress: params.DustCollectorAddress, MinInitialPoolCoinSupply: params.MinInitialPoolCoinSupply,
+			PairCreationFee: params.PairCreationFee, PoolCreationFee: params.PoolCreationFee,
+			MinInitialDepositAmount: params.MinInitialDepositAmount, MaxPriceLimitRatio: params.MaxPriceLimitRatio,
+			MaxOrderLifespan: params.MaxOrderLifespan, SwapFeeRate: params.SwapFeeRate, WithdrawFeeRate: params.WithdrawFeeRate,
+			DepositExtraGas: params.DepositExtraGas, WithdrawExtraGas: params.WithdrawExtraGas, OrderExtraGas: params.OrderExtraGas,
+			SwapFeeDistrDenom: params.SwapFeeDistrDenom, SwapFeeBurnRate: params.SwapFeeBurnRate, AppId: params.AppId,
+		}
+		store.Set(liqtypes.GetGenericParamsKey(a), cdc.MustMarshal(&oldParams))
+		for _, pool := range e.k.GetAllPools(e.ctx, a) {
+			oldPool := v1liquidity.Pool{
+				Id: pool.Id, PairId: pool.PairId, ReserveAddress: pool.ReserveAddress, PoolCoinDenom: pool.PoolCoinDenom,
+				LastDepositRequestId: pool.LastDepositRequestId, LastWithdrawRequestId: pool.LastWithdrawRequestId,
+				Disabled: pool.Disabled, AppId: pool.AppId,
+			}
+			store.Set(liqtypes.GetPoolKey(pool.AppId, pool.Id), cdc.MustMarshal(&oldPool))
+		}
+		for _, order := range e.k.GetAllOrders(e.ctx, a) {
+			oldOrder := v1liquidity.Order{
+				Id: order.Id, PairId: order.PairId, MsgHeight: order.MsgHeight, Orderer: order.Orderer,
+				Direction: v1liquidity.OrderDirection(order.Direction), OfferCoin: order.OfferCoin,
+				RemainingOfferCoin: order.RemainingOfferCoin, ReceivedCoin: order.ReceivedCoin, Price: order.Price,
+				Amount: order.Amount, OpenAmount: order.OpenAmount, BatchId: order.BatchId, ExpireAt: order.ExpireAt,
+				Status: v1liquidity.OrderStatus(order.Status), AppId: a,
+			}
+			store.Set(liqtypes.GetOrderKey(a, order.PairId, order.Id), cdc.MustMarshal(&oldOrder))
+			nOrders++
+			if order.Status.IsMatchable() {
+				nLive++
+				if order.RemainingOfferCoin.Amount.LT(order.OfferCoin.Amount) {
+					nPartial++
+				}
+			}
+		}
+	}
+	var err error
+	outcome := "ok"
+	panicked, _ := try(func() { err = liqkeeper.NewMigrator(e.k).Migrate1to2(e.ctx) })
+	if panicked {
+		outcome = "panic"
+	} else if err != nil {
+		outcome = "err"
+	}
+	// the model's Cfg holds the parameters for the whole history: the three fields the migration resets must come out as they were
+	for _, a := range e.apps {
+		after, err := e.k.GetGenericParams(e.ctx, a)
+		if err != nil {
+			e.t.Fatal(err)
+		}
+		b := before[a]
+		if after.TickPrecision != b.TickPrecision || after.MaxNumMarketMakingOrderTicks != b.MaxNumMarketMakingOrderTicks ||
+			after.MaxNumActivePoolsPerPair != b.MaxNumActivePoolsPerPair {
+			e.t.Fatalf("harness assumption: the migration's parameter defaults differ from the parameters of app %d", a)
+		}
+		if !after.SwapFeeRate.Equal(b.SwapFeeRate) || after.BatchSize != b.BatchSize || after.MaxOrderLifespan != b.MaxOrderLifespan ||
+			!after.MaxPriceLimitRatio.Equal(b.MaxPriceLimitRatio) || !after.MinInitialDepositAmount.Equal(b.MinInitialDepositAmount) ||
+			!after.MinInitialPoolCoinSupply.Equal(b.MinInitialPoolCoinSupply) || !after.PairCreationFee.IsEqual(b.PairCreationFee) ||
+			!after.PoolCreationFee.IsEqual(b.PoolCreationFee) {
+			e.tr.Count("migrate:params_changed") // the next messages will show it as DIFF
+		}
+	}
+	e.tr.Count(fmt.Sprintf("migrate:orders=%s", c04Bucket(nOrders)))
+	e.tr.Count(fmt.Sprintf("migrate:live=%s", c04Bucket(nLive)))
+	e.tr.Count(fmt.Sprintf("migrate:partially_filled_live=%s", c04Bucket(nPartial)))
+	e.emit("lq.migrate", outcome)
+	return true
+}
+
+func c04Bucket(n int) string {
+	switch {
+	case n == 0:
+		return "0"
+	case n <= 2:
+		return "1-2"
+	case n <= 9:
+		return "3-9"
+	default:
+		return "10+"
+	}
+}
+
+// ---------------------------------------------------------------------------------------------------------
 // messages
 // ---------------------------------------------------------------------------------------------------------
 
@@ -939,6 +1061,21 @@ func (e *c04Env) nextBlock(dt int64) {
 		h++
 	}
 	e.block(h, e.now+dt)
+	if e.migAt != 0 && h >= e.migAt {
+		// a chain upgrade: x/upgrade's BeginBlocker runs the registered module migrations before the other BeginBlockers.
+		// Random histories wait (up to migWait blocks) for a moment at which a partially filled order is alive.
+		partial := false
+		for _, o := range e.prev.orders {
+			if o.status <= int(liqtypes.OrderStatusPartiallyMatched) && o.rem.LT(o.offer) && o.expire > e.now+dt {
+				partial = true
+			}
+		}
+		if partial || h >= e.migAt+e.migWait {
+			if e.migrate() {
+				e.migAt = 0
+			}
+		}
+	}
 	e.beginBlocker()
 }
 
@@ -1348,7 +1485,7 @@ func (e *c04Env) genCreatePool() {
 	if e.rng.Chance(5) {
 		x = sdkmath.NewInt(int64(e.rng.Intn(1_000_001))) // around MinInitialDepositAmount
 	}
-	if e.rng.Chance(45) {
+	if !e.v1 && e.rng.Chance(45) {
 		tp := e.tickPrec(app)
 		p := sdkmath.LegacyNewDec(ratio).QuoInt64(100)
 		initP := amm.PriceToDownTick(p, tp)
@@ -1539,6 +1676,13 @@ func (e *c04Env) dt() int64 {
 
 func (e *c04Env) runRandom(blocks int, mode int) {
 	e.tiny = mode == 4
+	// modes 4 and 5 are version-1 worlds (limit / market orders and basic pools only): the store migration 1 -> 2 is run once,
+	// somewhere in the middle third of the history, with whatever partially filled orders and pending requests exist then
+	e.v1 = mode == 4 || mode == 5
+	if e.v1 {
+		e.migAt = e.height + int64(blocks/4+e.rng.Intn(blocks/4+1))
+		e.migWait = int64(blocks / 3)
+	}
 	e.setupMarkets()
 	for b := 0; b < blocks; b++ {
 		ntx := e.rng.Intn(7)
@@ -1551,6 +1695,7 @@ func (e *c04Env) runRandom(blocks int, mode int) {
 				{10, 2, 1, 2, 1, 1, 2, 8, 18, 15, 14, 12, 7, 7},
 				{20, 4, 28, 8, 4, 16, 2, 4, 4, 3, 2, 2, 2, 1},
 				{67, 0, 0, 10, 6, 0, 1, 2, 4, 3, 2, 2, 2, 1},
+				{45, 12, 0, 14, 7, 0, 1, 3, 5, 4, 3, 2, 2, 2},
 			}[mode]
 			k := 0
 			for acc := 0; k < len(w); k++ {
@@ -1742,6 +1887,57 @@ func (e *c04Env) witnessExecutedInMessage() {
 	}
 }
 
+// witnessMigration: orders that are alive while the module store is migrated from consensus version 1 to 2
+// (keeper.Migrator.Migrate1to2, registered in module.go).  Partially filled sell and buy orders (fee rates 0.3 % and 1.75 %),
+// an untouched resting order, a partially filled market order, a pending deposit request, a pending withdrawal and a farming
+// queue entry live through the migration; afterwards: the owners cancel, one order expires, one is filled further and
+// completes.  Every later refund is judged by the usual monitors (settled_exact, pair_escrow, cancellable, …); the migration
+// step itself by migration_identity.  (Seed s87: RemainingOfferCoin of a migrated order taken from OfferCoin.)
+func (e *c04Env) witnessMigration() {
+	d := func(s string) sdkmath.LegacyDec { return sdkmath.LegacyMustNewDecFromStr(s) }
+	n := func(x int64) sdkmath.Int { return sdkmath.NewInt(x) }
+	e.v1 = true
+	for _, app := range []uint64{1, 2, 3} {
+		e.createPair(app, 0, e.coins[1], e.coins[2])
+	}
+	e.createPool(3, 0, 1, n(50_000_000), n(50_000_000), false, sdkmath.LegacyDec{}, sdkmath.LegacyDec{}, sdkmath.LegacyDec{})
+	e.nextBlock(5)
+	e.nextBlock(5)
+	// app 1 (fee 0.3 %): seller 1 000 000 @ 1.0 for an hour, buyer crosses 400 000 of it, a bystander rests at 1.1
+	e.order(1, 1, 1, 1, false, n(1_003_000), d("1.0"), n(1_000_000), 3600, false)
+	e.order(1, 2, 1, 1, true, n(401_200), d("1.0"), n(400_000), 0, false)
+	e.order(1, 3, 1, 1, false, n(501_500), d("1.1"), n(500_000), 3600, false)
+	// app 2 (fee 1.75 %): a BUY order is the partially filled one (expires 40 s later), plus a resting buy far below
+	e.order(2, 2, 1, 1, true, n(2_035_000), d("1.0"), n(2_000_000), 40, false)
+	e.order(2, 1, 1, 1, false, n(712_250), d("1.0"), n(700_000), 0, false)
+	e.order(2, 3, 1, 1, true, n(1_000_000), d("0.95"), n(900_000), 3600, false)
+	// app 3 (fee 0, two-block batches, a pool): pending requests and a farming queue entry
+	e.deposit(3, 1, 1, n(3_000_000), n(3_000_000))
+	e.withdraw(3, 0, 1, e.poolCoinBalance(0, 3, 1).QuoRaw(10), false)
+	e.farm(3, 0, 1, e.poolCoinBalance(0, 3, 1).QuoRaw(20), false)
+	e.order(3, 2, 1, 1, false, n(6_000_000), d("1.02"), n(5_000_000), 3600, false)
+	e.nextBlock(5) // batches of apps 1 and 2: the partial fills
+	// a market order (last price exists now in apps 1 and 2) that is only partially filled: sells 900 000 into the resting buy of 900 000 @ 0.95 … and the 1.0 buyer
+	e.order(2, 0, 1, 2, false, n(3_100_000), sdkmath.LegacyZeroDec(), n(3_000_000), 3600, false)
+	e.migAt = e.height + 1
+	e.nextBlock(5) // EndBlocker, then — at the start of the next block — the store migration, then the BeginBlocker
+	if e.migAt != 0 {
+		e.t.Fatalf("witnessMigration: the migration did not run")
+	}
+	e.cancel(1, 1, 1, 1)                                                            // the partially filled seller: unspent offer + fee reserve − fee on the executed part
+	e.cancel(1, 3, 1, 3)                                                            // the bystander: refunded in full — the escrow must still hold it
+	e.order(1, 2, 1, 1, true, n(300_900), d("1.0"), n(300_000), 0, false)           // nothing left to match in app 1
+	e.order(2, 1, 1, 1, false, n(1_322_750), d("1.0"), n(1_300_000), 0, false)      // fills the migrated buy order of app 2 completely
+	e.nextBlock(5)
+	e.cancelAll(2, 0, nil) // the rest of the migrated market order
+	e.cancelAll(2, 3, []uint64{1})
+	e.nextBlock(50) // anything left of the 40 s buy order expires
+	e.nextBlock(5)
+	e.cancel(3, 2, 1, 1)
+	e.nextBlock(5)
+	e.nextBlock(5)
+}
+
 func c04Run(t *testing.T, prop string) {
 	tr := OpenTrace(t, strings.ToLower(prop)+".trace")
 	defer tr.Close(t)
@@ -1756,6 +1952,8 @@ func c04Run(t *testing.T, prop string) {
 	e.witnessCancelAll()
 	e = c04NewEnv(t, tr, rng, prop, 0)
 	e.witnessExecutedInMessage()
+	e = c04NewEnv(t, tr, rng, prop, 0)
+	e.witnessMigration()
 	nseq := scale(10, 120)
 	blocks := scale(45, 110)
 	if os := envInt("VERIF_SEARCH", 0); os == 1 {
@@ -1763,7 +1961,7 @@ func c04Run(t *testing.T, prop string) {
 	}
 	tot, ok := 0, 0
 	for s := 0; s < nseq; s++ {
-		mode := s % 5
+		mode := s % 6
 		if prop == "C07" && mode == 2 {
 			mode = 3 // C07: more market-making, fewer farming sequences
 		}
